@@ -34,15 +34,18 @@ func VH_C18_BundleSerializers() {
 	magic1 := append([]byte{}, version.HeaderMagicBytesB1[:cap(version.HeaderMagicBytesB1)]...)
 	magic2 := append([]byte{}, version.HeaderMagicBytesB2[:cap(version.HeaderMagicBytesB2)]...)
 	run := func(x *Bundle, which int) []byte {
-		if which == 1 {
-			out, err := x.Exchanges[0].Response.EncodeHeader()
-			vh.Assume(err == nil)
-			return out
-		}
-		var w vh.Sink
-		_, err := x.WriteTo(&w)
+		// vh.Isolated: the engine's write-set recorder reports ANY store into memory that existed before the
+		// call (package-level variables, the bundle, its maps and slices incl. spare capacity)
+		out, err := vh.Isolated(func() ([]byte, error) {
+			if which == 1 {
+				return x.Exchanges[0].Response.EncodeHeader()
+			}
+			var w vh.Sink
+			_, err := x.WriteTo(&w)
+			return w.B, err
+		})
 		vh.Assume(err == nil)
-		return w.B
+		return out
 	}
 	which := vh.Choose(2)
 	out1 := run(b, which)
@@ -57,5 +60,7 @@ func VH_C18_BundleSerializers() {
 		}
 	}
 	vh.Assert(ok && len(e1.Response.Body) == 2, "body backing array untouched incl. spare capacity")
+	vh.Assert(vh.IsolatedProbe(func() { version.HeaderMagicBytesB2[0] = version.HeaderMagicBytesB2[0] }), "witness: the write-set recorder sees a same-value store into a package-level slice")
+	vh.Assert(vh.IsolatedProbe(func() { h["New"] = nil; delete(h, "New") }), "witness: the recorder sees an insertion into the caller's header map")
 	vh.Assert(bytes.Equal(magic1, version.HeaderMagicBytesB1[:cap(version.HeaderMagicBytesB1)]) && bytes.Equal(magic2, version.HeaderMagicBytesB2[:cap(version.HeaderMagicBytesB2)]), "package-level magic byte slices unchanged (incl. capacity)")
 }
